@@ -43,7 +43,7 @@ def _gen_items(ch, ctx, depth, tag, allow_loop, in_sub, under_par, bad):
             # mostly unique tags; sometimes a textually identical twin of an earlier gate (the
             # schedule is compared as a multiset, so identical instances are fine)
             t = tag[0] if ch.int(0, 4) else ch.int(1, max(1, tag[0]))
-            out.append(["g", ch.pick(["g", "h"]) if t == tag[0] else "g", [["n", t]]])
+            out.append(["g", ch.pick(["g", "h", "g", "h", "I_g", "I_h"]) if t == tag[0] else "g", [["n", t]]])
         elif k == "par":
             out.append(["par", _gen_items(ch, "par", depth - 1, tag, allow_loop and bad, in_sub, True, bad)])
         elif k == "seq":
@@ -80,7 +80,16 @@ def _case(ch):
     b.header(prog)
     bad = ch.int(0, 5) == 0
     prog["body"] = _gen_items(ch, "top", 6 if ch.bool() else 3, [0], True, False, False, bad)
-    return {"prog": prog}
+    # with a native gate set the I_ gates are real IdleGateDefinition instances (they take a time
+    # step like any gate), without one they are anonymous gates that merely have such names
+    return {"prog": prog, "native": ch.bool()}
+
+
+def _natives():
+    from jaqalpaq.core import GateDefinition, Parameter, ParamType
+    from jaqalpaq.core.gatedef import add_idle_gates
+
+    return add_idle_gates({n: GateDefinition(n, [Parameter("t", ParamType.FLOAT)]) for n in ("g", "h")})
 
 
 def _tree_of_model(stmts):
@@ -188,7 +197,8 @@ def check(case):
 
     prog = case["prog"]
     text = render.to_text(prog)
-    st_, c = guard(parse, text, what="parse")
+    kw = {"inject_pulses": _natives()} if case.get("native") else {}
+    st_, c = guard(parse, text, what="parse", **kw)
     if st_ == "err":
         raise Skip()
     negative = _has_loop_under_par(prog["body"])
@@ -223,7 +233,7 @@ def check(case):
 
     d = depth_of(prog["body"])
     uneven = _uneven(prog["body"])
-    classes = ["depth:%d" % min(d, 6)] + (["uneven-branches"] if uneven else []) + (["subcircuit"] if _sub_annotations(t_in) else []) + (["loops"] if l_in else [])
+    classes = ["depth:%d" % min(d, 6)] + (["native-idle-definitions"] if case.get("native") else []) + (["uneven-branches"] if uneven else []) + (["subcircuit"] if _sub_annotations(t_in) else []) + (["loops"] if l_in else [])
     return {"nontrivial": d >= 3 and uneven, "classes": classes, "key": text, "sample": {"text": text}}
 
 
